@@ -451,6 +451,27 @@ theorem C15_end_to_end_fragment (q : Quirks) (inputs : List String) (defs : List
       h2 h6 hcount hM hq hO
   exact ⟨ret, k, hret, hk, hdist⟩
 
+/-- **The measured distribution of the compiled circuit is the prediction, for every width and every
+iteration count** (the end-to-end form of `grover_distribution`: any number `n` of argument bits, any number
+`M` of solutions, any `k ≥ 1` – also the explicit `n_iterations` of the constructor). -/
+theorem C15_end_to_end_distribution (q : Quirks) (inputs : List String) (defs : List (String × BExp))
+    (r : String) (choices : List Nat) (s : CState) (M : Nat)
+    (hf : inXorFragment inputs defs [r] = true)
+    (h : (compile inputs defs (some [r]) true).run { choices := choices } = .ok ((), s))
+    (hcount : ((allStates inputs.length).filter (predOf inputs defs r)).length = M)
+    (k : Nat) (hk : 1 ≤ k) :
+    ∃ ret, dictGet? s.qc.qmap r = some ret ∧
+      ∀ x : BState, x.length = inputs.length →
+        probNum (groverGates q inputs.length s.qc.gates.toList s.qc.numQubits ret k) (s.qc.numQubits + 1)
+            inputs.length x * (predict inputs.length M k).2.2
+          = (if predOf inputs defs r x then (predict inputs.length M k).1 else (predict inputs.length M k).2.1)
+            * 2 ^ hCount (groverGates q inputs.length s.qc.gates.toList s.qc.numQubits ret k) := by
+  obtain ⟨ret, hret, _, _, hO, _⟩ :=
+    EndToEnd.compile_oracles inputs defs [r] choices s hf h r List.mem_cons_self
+  exact ⟨ret, hret, fun x hx =>
+    grover_distribution q inputs.length M s.qc.numQubits ret s.qc.gates.toList (predOf inputs defs r)
+      hcount hO k hk x hx⟩
+
 /-- **Independence of how the predicate is written or compiled, end to end.**  Two definitions of the class
 (different expressions, different argument or return names) that denote the same predicate on `n` bits,
 compiled by any two successful runs of the compiler model (different ancilla choices, different numbers of
